@@ -297,5 +297,74 @@ func c17Scenarios(tier string) []*Scenario {
 			}
 		}
 	}
+	// two processes with their own per-process variables, every size of the global list (g entries
+	// from the file, e more from env_cmds): each command receives its own process's variables at the
+	// first launch and at the relaunch, whichever process was created or launched first
+	for g := 0; g <= 3; g++ {
+		for e := 0; e <= 3; e++ {
+			if tier != "thorough" && g+e > 4 {
+				continue
+			}
+			g, e := g, e
+			var global []string
+			if g > 0 {
+				global = append(global, "environment:")
+				for i := 0; i < g; i++ {
+					global = append(global, fmt.Sprintf("  - 'VHG%d=g%d'", i, i))
+				}
+			}
+			out := map[string]string{}
+			if e > 0 {
+				global = append(global, "env_cmds:")
+				for i := 0; i < e; i++ {
+					global = append(global, fmt.Sprintf("  VHE%d: \"envcmd-%d\"", i, i))
+					out[fmt.Sprintf("envcmd-%d", i)] = fmt.Sprintf("e%d\n", i)
+				}
+			}
+			mk := func(n string) PC {
+				return PC{Name: n, Restart: "on_failure", Lines: []string{"environment:", "  - 'VHX=own-" + n + "'", "  - 'VHP" + n + "=" + n + "'"}}
+			}
+			sc := &Scenario{
+				ID:         fmt.Sprintf("c17-two-g%d-e%d", g, e),
+				YAML:       projectYAML(global, mk("p"), mk("q")),
+				Procs:      map[string]*ProcScript{"p": {Launches: exits(1, 0)}, "q": {Launches: exits(1, 0)}},
+				TickBudget: 2,
+				EnvCmdOut:  out,
+				K:          1,
+				Env:        map[string]string{"VHI": "i"},
+			}
+			sc.Check = func(w *World) []Violation {
+				var vs []Violation
+				for _, f := range w.procs {
+					if f.Name != "p" && f.Name != "q" {
+						continue
+					}
+					other := "q"
+					if f.Name == "q" {
+						other = "p"
+					}
+					ev := effectiveEnv(f.Env)
+					if ev["VHX"] != "own-"+f.Name || ev["VHP"+f.Name] != f.Name {
+						vs = append(vs, viol("C17", "own-variables", "launch %d of %s receives VHX=%q VHP%s=%q (global list: %d from the file, %d from env_cmds)", f.Inst, f.Name, ev["VHX"], f.Name, ev["VHP"+f.Name], g, e))
+					}
+					if _, ok := ev["VHP"+other]; ok {
+						vs = append(vs, viol("C17", "foreign-variables", "launch %d of %s receives the per-process variable of %s", f.Inst, f.Name, other))
+					}
+					for i := 0; i < g; i++ {
+						if ev[fmt.Sprintf("VHG%d", i)] != fmt.Sprintf("g%d", i) {
+							vs = append(vs, viol("C17", "precedence:global-lost", "global variable VHG%d missing for %s", i, f.Name))
+						}
+					}
+					for i := 0; i < e; i++ {
+						if ev[fmt.Sprintf("VHE%d", i)] != fmt.Sprintf("e%d", i) {
+							vs = append(vs, viol("C17", "precedence:env_cmds-lost", "env_cmds variable VHE%d=%q for %s", i, ev[fmt.Sprintf("VHE%d", i)], f.Name))
+						}
+					}
+				}
+				return vs
+			}
+			scs = append(scs, sc)
+		}
+	}
 	return scs
 }
